@@ -198,6 +198,17 @@ pub fn gen_plumb(seed: u64, tag: &str, thorough: bool) {
                 _ => {}
             }
         }
+        // the float settings store an in-range argument as given, whatever the other settings are (seeded change C14k: beta
+        // limited to 1 - alpha): set alpha high, then beta, and read back
+        if tag == "C14" || tag == "C20" || tag == "C06" {
+            let (a, b) = (rng.uniform(0.5, 0.8), rng.uniform(0.3, 0.8));
+            e.condition.set_alpha(a);
+            e.condition.set_beta(b);
+            let got = cond_snapshot(&e);
+            let wantab = vec![("alpha".to_string(), hx(a)), ("beta".to_string(), hx(b))];
+            let gotab: Vec<(String, String)> = wantab.iter().map(|(n, _)| got.iter().find(|(m, _)| m == n).cloned().unwrap()).collect();
+            shist_report(&wantab, &gotab, &[], &format!("set_alpha({a});set_beta({b})"));
+        }
         let want = cond_snapshot(&e);
         let owned = ["volume", "alignment", "speed", "beta", "half_tone"];
         let f = |s: &str| f64::from_bits(u64::from_str_radix(s, 16).unwrap());
